@@ -428,7 +428,13 @@ func (h *RequestHeader) AppendBytes(dst []byte) []byte {
 	if n > 0 {
 		dst = append(dst, bytestr.StrCookie...)
 		dst = append(dst, bytestr.StrColonSpace...)
+		start := len(dst)
 		dst = appendRequestCookieBytes(dst, h.cookies)
+		// cookie keys and values come from the application: neutralise CR/LF like
+		// appendHeaderLine does for every other header value.
+		for i := start; i < len(dst); i++ {
+			dst[i] = bytesconv.NewlineToSpaceTable[dst[i]]
+		}
 		dst = append(dst, bytestr.StrCRLF...)
 	}
 
